@@ -211,6 +211,19 @@ def oracle(case, inputs=None):
     return env, calls
 
 
+def call_kwargs(case, env, f, ext_idx):
+    """Keyword arguments (pipeline-level names) of the invocation of f at external index ext_idx."""
+    if f["mapspec"] is None:
+        return {p: env[p] for p in f["params"]}
+    ext_axes = [a for a in f["out_axes"] if a not in f["internal"]]
+    ids = dict(zip(ext_axes, ext_idx))
+    kw = {}
+    for p in f["params"]:
+        m = f["modes"][p]
+        kw[p] = env[p] if m == "whole" else env[p][tuple(slice(None) if a is None else ids[a] for a in m)]
+    return kw
+
+
 def _obj(v):
     if isinstance(v, np.ndarray) and v.dtype == object:
         return v
